@@ -683,6 +683,11 @@ func indepBody(list []entry) func(c *mc.Ctx, item int) mc.Verdict {
 			for _, d := range afmcodec.Compare(model, m1) {
 				fs = append(fs, finding{"C15:indep-read:" + d.Key(), "independent writer -> Read: " + d.Detail})
 			}
+		} else if lay.DataDetermined() {
+			// a repeated glyph line / a line without a name adds nothing to the data
+			for _, d := range afmcodec.Compare(model, m1) {
+				fs = append(fs, finding{"C15:indep-read:extra-line-changes-the-data:" + d.Key(), "independent writer (with an extra line that carries no data) -> Read: " + d.Detail})
+			}
 		}
 		cf, _ := closure(c, m1)
 		fs = append(fs, cf...)
